@@ -12,8 +12,25 @@ reader that takes sizes from the file (`Nodegraph::from_reader`):
 Memory safety of native code, third-party decoders (zip, gzip, sqlite, serde_json) and the
 allocator are outside any model; the crash-isolated differential run in `props/C20.py` observes
 them (signals, timeouts, address-space limit) and is labelled as testing in the evidence.
+
+Second part (sections `manifest`, `picklist`, `lca`, `sbt`, `chain` below): the other hand-written
+readers — `CollectionManifest.load_from_csv`, `SignaturePicklist.from_picklist_args/.load`,
+`LCA_Database.load`, `SBT.load/_load_v1.._v6`, `_load_database` — as decision + work models over
+what the trusted decoders (UTF-8 text layer, csv, json, file system, `ast.literal_eval` as an oracle
+with a stated exception range) report.  For each:
+* `…_classes`: every exception that can escape belongs to an explicit list of Python classes (all
+  `Exception` subclasses: "ordinary catchable errors"), and `…_classes_tight`: each listed class
+  does escape for some input (kernel-checked witness) — so the lists are exact for the model;
+* `…_accepts`: what an accepted file is guaranteed to contain;
+* `…_work`: loop iterations ≤ c·|input| — or, where that is false, the counterexample family
+  (`sbt_children_cost_unbounded` = D26, `sbt_missing_range_unbounded` = C20.1).
+The models are total Lean functions defined by structural recursion (no fuel, no `partial`): no
+input makes a modelled reader loop.  The tie to the code is the translator (59 pinned source
+definitions + extracted literals) and the differential run of model vs reader on every mutated file.
 -/
 import SmVerif.Model.NgReader
+import SmVerif.Model.LoaderChain
+import SmVerif.Lemmas.C20Readers
 
 namespace Sm.C20
 
@@ -184,5 +201,595 @@ example :
     (parse ([0x4f, 0x58, 0x4c, 0x49, 4, 2, 21, 0, 0, 0, 1, 3, 0, 0, 0, 0, 0, 0, 0] ++
             [5, 0, 0, 0, 0, 0, 0, 0] ++ [0x15])).1.toOption.map (fun p => (p.ksize, p.occupied, p.tables)) =
       some (21, 3, [(5, [0x15])]) := by decide
+
+
+/-! ## Second part: the text readers -/
+
+open Sm.Py Sm.CsvR Sm.JsonR
+
+/-- the class of the exception a reader step raises, if it raises -/
+def excOf {α : Type} (r : R α) : Option Cls :=
+  match r with
+  | .error (.exc c) => some c
+  | _ => none
+
+def okOf {α : Type} (r : R α) : Option α :=
+  match r with
+  | .ok a => some a
+  | _ => none
+
+theorem excOf_within {α : Type} {L : List Cls} {r : R α} (h : Within L r) {c : Cls} (hc : excOf r = some c) : c ∈ L := by
+  unfold excOf at hc
+  split at hc
+  · injection hc with hc; subst hc; exact h _ rfl
+  · cases hc
+
+/-! ### manifest CSV: `CollectionManifest.load_from_csv` -/
+
+/-- the concrete (partial) model of `bool(ast.literal_eval(cell))` used by the driver stays inside the
+    exception range assumed of the oracle -/
+theorem litModel_range : LitOk litModel := by
+  intro cell c
+  unfold litModel
+  (repeat' (first | split | simp only [])) <;>
+    (intro h; first | (cases h; done) | (injection h with h; subst h; simp [litClasses]))
+
+/-- **escaping classes.**  Whatever the file holds, and for every `literal_eval` oracle inside its documented
+    range, an exception leaving `load_from_csv` is a ValueError, TypeError, csv.Error, UnicodeDecodeError
+    (a ValueError subclass) or one of literal_eval's SyntaxError / MemoryError / RecursionError (and ValueError /
+    TypeError again).  In particular no KeyError: the required-columns check makes every later `row[k]` succeed. -/
+theorem manifest_classes {lit : Cell → Lit} (hl : LitOk lit) (doc : CsvDoc) {c : Cls}
+    (h : excOf (loadManifest lit doc).res = some c) :
+    c ∈ [Cls.ValueError, .TypeError, .CsvError, .UnicodeDecodeError, .SyntaxError, .MemoryError, .RecursionError] := by
+  have := excOf_within (loadManifest_within hl doc) h
+  simp [manifestClasses, manifestOwnClasses, litClasses] at this
+  rcases this with rfl | rfl | rfl | rfl | rfl | rfl | rfl | rfl | rfl <;> simp
+
+/-
+FULL STATEMENT (not proved / false): "every refusal of a malformed manifest is a ValueError".
+False for the code that exists: a row shorter than the header makes `int(None)` raise TypeError, and the
+`with_abundance` cell goes through `ast.literal_eval`, whose SyntaxError / MemoryError / RecursionError escape.
+-/
+
+def mfHeader : List Cell :=
+  ["internal_location", "md5", "md5short", "ksize", "moltype", "num", "scaled", "n_hashes", "with_abundance", "name", "filename"].map String.toList
+
+def mfDoc (rows : List Row) (tail : Tail := .eof) : CsvDoc :=
+  ⟨.line "# SOURMASH-MANIFEST-VERSION: 1.0\n".toList, mfHeader :: rows, tail⟩
+
+def cells (l : List String) : Row := l.map String.toList
+
+/-- kernel-checked counterexamples to the full statement, and witnesses that every listed class escapes -/
+theorem manifest_classes_tight :
+    -- a good row loads
+    okOf (loadManifest litModel (mfDoc [cells ["loc", "m", "m", "21", "DNA", "0", "1", "5", "True", "n", "f"]])).res
+      = some [⟨0, 1, 21, 5, true⟩] ∧
+    -- no version header / version 1.1 / a required column missing / a non-integer cell: ValueError
+    excOf (loadManifest litModel ⟨.line "md5,name\n".toList, [], .eof⟩).res = some .ValueError ∧
+    excOf (loadManifest litModel ⟨.line "# SOURMASH-MANIFEST-VERSION: 1.1\n".toList, [mfHeader], .eof⟩).res = some .ValueError ∧
+    excOf (loadManifest litModel ⟨.line "# SOURMASH-MANIFEST-VERSION: 1.0\n".toList, [mfHeader.drop 1], .eof⟩).res = some .ValueError ∧
+    excOf (loadManifest litModel (mfDoc [cells ["loc", "m", "m", "x", "DNA", "0", "1", "5", "True", "n", "f"]])).res = some .ValueError ∧
+    -- a row cut short before an integer column: TypeError
+    excOf (loadManifest litModel (mfDoc [cells ["loc", "m", "m", "21", "DNA", "0", "1"]])).res = some .TypeError ∧
+    -- an empty `with_abundance` cell: SyntaxError
+    excOf (loadManifest litModel (mfDoc [cells ["loc", "m", "m", "21", "DNA", "0", "1", "5", "", "n", "f"]])).res = some .SyntaxError ∧
+    -- the csv module / the text decoder failing after the rows read so far
+    excOf (loadManifest litModel (mfDoc [] .csvError)).res = some .CsvError ∧
+    excOf (loadManifest litModel (mfDoc [] .decodeError)).res = some .UnicodeDecodeError ∧
+    -- what literal_eval raises on deep nesting reaches the caller (here through an oracle that says MemoryError)
+    excOf (loadManifest (fun _ => .exc .MemoryError) (mfDoc [cells ["loc", "m", "m", "21", "DNA", "0", "1", "5", "-", "n", "f"]])).res
+      = some .MemoryError := by
+  decide +kernel
+
+/-- **an accepted manifest**: the header carries every required column, the reader saw the end of the file
+    (no decoder / csv error was swallowed), and the result is exactly the conversion of the non-blank data rows,
+    in each of which the four integer columns are present as cells and parse as Python ints -/
+theorem manifest_accepts {lit : Cell → Lit} {doc : CsvDoc} {out : List MfRow} (h : (loadManifest lit doc).res = .ok out) :
+    ∃ fields rest, doc.rows = fields :: rest ∧ (∀ k ∈ requiredKeys, k ∈ fields) ∧ doc.tail = .eof ∧
+      (rest.filter (fun r => !r.isEmpty)).map (convertRow lit fields) = out.map Except.ok ∧
+      ∀ r ∈ rest.filter (fun r => !r.isEmpty), ∀ k ∈ intCols, ∃ c i, cellOf fields r k = some (some c) ∧ pyIntStr c = .ok i := by
+  obtain ⟨fields, rest, hrows, hmk, htail, hmap⟩ := loadManifest_ok h
+  refine ⟨fields, rest, hrows, ?_, htail, hmap, ?_⟩
+  · intro k hk
+    have := missingKey_false hmk hk
+    simpa using this
+  · intro r hr
+    have : convertRow lit fields r ∈ (rest.filter (fun r => !r.isEmpty)).map (convertRow lit fields) := List.mem_map_of_mem hr
+    rw [hmap] at this
+    obtain ⟨m, _, hm⟩ := List.mem_map.1 this
+    exact convertRow_ok hm.symm
+
+/-
+FULL STATEMENT (not proved / false): "an accepted manifest has all required columns in every row".
+False for the code that exists: DictReader pads a short row with `None`, `int()` refuses `None` but
+`str(None)` evaluates to `None` -> False, and `name` / `filename` / `md5` … are not looked at: a row that stops
+after `n_hashes` is accepted with `with_abundance = False`, `name = None`, `filename = None`.
+-/
+theorem manifest_short_row_accepted :
+    okOf (loadManifest litModel (mfDoc [cells ["loc", "m", "m", "21", "DNA", "0", "1", "5"]])).res = some [⟨0, 1, 21, 5, false⟩] ∧
+    cellOf mfHeader (cells ["loc", "m", "m", "21", "DNA", "0", "1", "5"]) "name".toList = some none := by
+  decide +kernel
+
+/-- **work**: one pass over the rows the csv reader yields, plus the header checks -/
+theorem manifest_work (lit : Cell → Lit) (doc : CsvDoc) :
+    (loadManifest lit doc).work ≤ doc.rows.length + requiredKeys.length + 2 :=
+  loadManifest_work lit doc
+
+/-- `float(version) == 1.0`: which version strings pass (IEEE round-to-nearest-even: the interval
+    [1 - 2^-54, 1 + 2^-53] around 1, both ends included), which are refused -/
+theorem manifest_version_examples :
+    okOf (versionIsOne "1.0".toList) = some true ∧ okOf (versionIsOne "1".toList) = some true ∧ okOf (versionIsOne "1e0".toList) = some true ∧
+    okOf (versionIsOne " +1.000 ".toList) = some true ∧
+    okOf (versionIsOne "1.00000000000000011102230246251565404236316680908203125".toList) = some true ∧
+    okOf (versionIsOne "1.000000000000000111022302462515654042363166809082031250001".toList) = some false ∧
+    okOf (versionIsOne "0.999999999999999944488848768742172978818416595458984375".toList) = some true ∧
+    okOf (versionIsOne "0.99999999999999994448884876874217297881841659545898437499".toList) = some false ∧
+    okOf (versionIsOne "1.1".toList) = some false ∧ okOf (versionIsOne "nan".toList) = some false ∧ okOf (versionIsOne "".toList) = some false ∧
+    okOf (versionIsOne "0x1".toList) = some false ∧ okOf (versionIsOne "1\x1c".toList) = some false := by
+  decide +kernel
+
+/-! ### picklist: `SignaturePicklist.from_picklist_args`, `.load` -/
+
+/-- the argument string `file:col:coltype[:style]`: the only refusal is ValueError (the `preprocess[coltype]`
+    lookup cannot fail for a coltype that passed the validity check) -/
+theorem picklist_args_classes (argstr : List Char) {c : Cls} (h : excOf (fromArgs argstr) = some c) : c = .ValueError := by
+  have := excOf_within (fromArgs_within argstr) h
+  simpa using this
+
+/-- **escaping classes** of `load()` -/
+theorem picklist_classes (pl : Picklist) (doc : PickDoc) {c : Cls} (h : excOf (loadPicklist pl doc).res = some c) :
+    c ∈ [Cls.ValueError, .CsvError, .AssertionError, .UnicodeDecodeError, .KeyError, .AttributeError, .TypeError] :=
+  excOf_within (loadPicklist_within pl doc) h
+
+def plOf (a : String) : Picklist :=
+  match fromArgs a.toList with
+  | .ok p => p
+  | .error _ => ⟨[], [], [], .incl⟩
+
+def pickDoc (rows : List Row) (tail : Tail := .eof) : PickDoc := ⟨true, true, .line [], false, [], .eof, rows, tail⟩
+
+theorem picklist_classes_tight :
+    -- argument strings
+    excOf (fromArgs "f.csv:md5".toList) = some .ValueError ∧ excOf (fromArgs "f.csv:md5:md5:sometimes".toList) = some .ValueError ∧
+    excOf (fromArgs "f.csv:md5:sha1".toList) = some .ValueError ∧ excOf (fromArgs "f.csv:name:gather".toList) = some .ValueError ∧
+    (okOf (fromArgs "f.csv:md5:md5:exclude".toList)).map (·.style) = some .excl ∧
+    (okOf (fromArgs "f.csv::manifest".toList)).map (·.coltype) = some "manifest".toList ∧
+    -- a good file: one empty value, one duplicate
+    (okOf (loadPicklist (plOf "f:md5:md5") (pickDoc [cells ["md5", "x"], cells ["a", "1"], cells ["", "2"], cells ["a", "3"], cells ["b"]])).res).map
+      (fun r => (r.nEmpty, r.dups.length, r.pickset.length)) = some (1, 1, 2) ∧
+    -- not a file / empty file / column absent: ValueError
+    excOf (loadPicklist (plOf "f:md5:md5") { pickDoc [] with isFile := false }).res = some .ValueError ∧
+    excOf (loadPicklist (plOf "f:md5:md5") (pickDoc [])).res = some .ValueError ∧
+    excOf (loadPicklist (plOf "f:md5:md5") (pickDoc [cells ["name"]])).res = some .ValueError ∧
+    -- first buffered chunk not UTF-8 on its own: csv.Error; `#x` first line: AssertionError
+    excOf (loadPicklist (plOf "f:md5:md5") { pickDoc [] with peekOk := false }).res = some .CsvError ∧
+    excOf (loadPicklist (plOf "f:md5:md5") { pickDoc [] with startsHash := true, first := .line "#x\n".toList }).res = some .AssertionError ∧
+    excOf (loadPicklist (plOf "f:md5:md5") (pickDoc [cells ["md5"]] .decodeError)).res = some .UnicodeDecodeError ∧
+    -- meta-coltypes skip the column check: KeyError / AttributeError / TypeError from the rows
+    excOf (loadPicklist (plOf "f::manifest") (pickDoc [cells ["md5"], cells ["a"]])).res = some .KeyError ∧
+    excOf (loadPicklist (plOf "f::manifest") (pickDoc [cells ["md5", "name"], cells ["a"]])).res = some .AttributeError ∧
+    excOf (loadPicklist (plOf "f::manifest") (pickDoc [cells ["name", "md5"], cells ["a"]])).res = some .TypeError := by
+  decide +kernel
+
+/-- **work**: one pass over the rows -/
+theorem picklist_work (pl : Picklist) (doc : PickDoc) :
+    (loadPicklist pl doc).work ≤ doc.rowsRest.length + doc.rowsAll.length + 2 :=
+  loadPicklist_work pl doc
+
+/-! ### LCA database JSON: `LCA_Database.load` -/
+
+/-- **escaping classes** (the SQLite probe's own non-ValueError exceptions pass through unchanged) -/
+theorem lca_classes (f : LcaFile) {c : Cls} (h : excOf (loadLca f).res = some c) :
+    c ∈ [Cls.ValueError, .TypeError, .KeyError, .AttributeError, .IndexError, .OverflowError, .AssertionError,
+         .RecursionError, .UnicodeDecodeError] ∨ f.sqlite = .raises c := by
+  unfold loadLca at h
+  split at h
+  · left; simp [excOf, raise] at h; subst h; simp
+  split at h
+  · simp [excOf, decline] at h
+  · rename_i c' hs
+    split at h
+    · simp [excOf, decline] at h
+    · right; simp [excOf, raise] at h; subst h; exact hs
+  · split at h
+    · left; simp [excOf, raise] at h; subst h; simp
+    · left; simp [excOf, raise] at h; subst h; simp
+    · split at h
+      · left; simp [excOf, raise] at h; subst h; simp
+      · split at h
+        any_goals (left; simp [excOf, raise] at h; subst h; simp)
+        left
+        have := excOf_within (loadLcaDoc_within _) h
+        simp [lcaDocClasses] at this
+        rcases this with rfl | rfl | rfl | rfl | rfl | rfl | rfl <;> simp
+
+def J.set (k : List Char) (v : J) : J → J
+  | .obj kvs => .obj (if (lookup k kvs).isSome then kvs.map (fun p => if p.1 == k then (k, v) else p) else kvs ++ [(k, v)])
+  | x => x
+
+def J.del (k : List Char) : J → J
+  | .obj kvs => .obj (kvs.filter (fun p => p.1 != k))
+  | x => x
+
+/-- a small valid LCA database document -/
+def lcaBase : J :=
+  .obj [(s "version", .str (s "2.1")), (s "type", .str (s "sourmash_lca")), (s "license", .str (s "CC0")),
+        (s "ksize", .int 21), (s "scaled", .int 1), (s "moltype", .str (s "DNA")),
+        (s "lid_to_lineage", .obj [(s "0", .arr [.arr [.str (s "superkingdom"), .str (s "Bacteria")]])]),
+        (s "hashval_to_idx", .obj [(s "5", .arr [.int 0])]),
+        (s "ident_to_name", .obj [(s "a", .str (s "b"))]),
+        (s "ident_to_idx", .obj [(s "a", .int 0)]),
+        (s "idx_to_lid", .obj [(s "0", .int 0)])]
+
+def lcaFile (d : J) : LcaFile := ⟨true, .valueError, .text '{' (.doc d)⟩
+
+set_option exponentiation.threshold 2000 in
+/-- every listed class does escape; `license` is never looked at; `version` is compared as a double -/
+theorem lca_classes_tight :
+    okOf (loadLca (lcaFile lcaBase)).res = some ⟨21, 1, 1, 1, 1, some 1, some 1⟩ ∧
+    okOf (loadLca (lcaFile (J.del (s "license") lcaBase))).res = some ⟨21, 1, 1, 1, 1, some 1, some 1⟩ ∧
+    Gen.c20LcaChecksLicense = false ∧
+    okOf (loadLca (lcaFile (J.set (s "version") (.str (s "1.99999999999999988897769753748434595763683319091796875")) lcaBase))).res
+      = some ⟨21, 1, 1, 1, 1, some 1, some 1⟩ ∧
+    excOf (loadLca (lcaFile (J.set (s "version") (.str (s "1.9")) lcaBase))).res = some .ValueError ∧
+    excOf (loadLca (lcaFile (J.set (s "type") (.str (s "other")) lcaBase))).res = some .ValueError ∧
+    excOf (loadLca ⟨true, .valueError, .text '[' .jsonError⟩).res = some .ValueError ∧
+    excOf (loadLca ⟨false, .valueError, .empty⟩).res = some .ValueError ∧
+    excOf (loadLca (lcaFile (J.del (s "version") lcaBase))).res = some .TypeError ∧
+    excOf (loadLca (lcaFile (J.del (s "ksize") lcaBase))).res = some .KeyError ∧
+    excOf (loadLca (lcaFile (J.set (s "hashval_to_idx") (.arr []) lcaBase))).res = some .AttributeError ∧
+    excOf (loadLca (lcaFile (J.set (s "lid_to_lineage") (.obj [(s "0", .str (s "a"))]) lcaBase))).res = some .IndexError ∧
+    excOf (loadLca (lcaFile (J.set (s "version") (.int (2 ^ 1024)) lcaBase))).res = some .OverflowError ∧
+    excOf (loadLca (lcaFile (J.set (s "moltype") (.str (s "protein")) (J.set (s "ksize") (.int 22) lcaBase)))).res = some .AssertionError ∧
+    (okOf (loadLca (lcaFile (J.set (s "moltype") (.str (s "protein")) (J.set (s "ksize") (.int (3 * (2 ^ 53 + 1))) lcaBase)))).res).map (·.ksize)
+      = some (2 ^ 53) ∧
+    excOf (loadLca ⟨true, .valueError, .text '{' .recursion⟩).res = some .RecursionError ∧
+    excOf (loadLca ⟨true, .valueError, .text '{' .decodeError⟩).res = some .UnicodeDecodeError := by
+  decide +kernel
+
+/-- **an accepted LCA database** is a JSON object whose `type` is the demanded string and which has the seven
+    keys the reader indexes (`version` needs no particular form beyond `float(version) >= 2.0`; `license` none) -/
+theorem lca_accepts {d : J} {info : LcaInfo} (h : (loadLcaDoc d).res = .ok info) :
+    ∃ kvs, d = .obj kvs ∧ isStr ((lookup (s "type") kvs).getD .null) (s Gen.c20LcaType) = true ∧
+      ∀ k ∈ lcaRequired, (lookup k kvs).isSome = true :=
+  loadLcaDoc_ok h
+
+/-- **work**: linear in the size of the decoded document (15 iterations per unit of size at most) -/
+theorem lca_work (d : J) : (loadLcaDoc d).work ≤ 15 * d.size := loadLcaDoc_work d
+
+/-! ### SBT index JSON: `SBT.load`, `_load_v1` … `_load_v6` -/
+
+/-- **escaping classes**: the reader's own, plus what the file system reports for the two paths the document
+    names (`os.makedirs` in FSStorage, reading the manifest), plus those of the manifest reader (composed in:
+    the attached manifest goes through `load_from_csv`) that are not already in the first list -/
+theorem sbt_classes {lit : Cell → Lit} (hl : LitOk lit) (f : SbtFile) {c : Cls} (h : excOf (loadSbt lit f).res = some c) :
+    c ∈ [Cls.KeyError, .TypeError, .IndexNotSupported, .AttributeError, .IndexError, .ValueError, .ModuleNotFoundError,
+         .FileNotFoundError, .IsADirectoryError, .UnicodeDecodeError, .JSONDecodeError, .RecursionError]
+    ∨ f.mkdirExc = some c ∨ f.manifest = .fs (.unreadable c)
+    ∨ c ∈ [Cls.CsvError, .SyntaxError, .MemoryError] := by
+  have := excOf_within (loadSbt_within hl f) h
+  unfold sbtClasses at this
+  rcases List.mem_append.1 this with h1 | h3
+  · rcases List.mem_append.1 h1 with h1 | h2
+    · exact Or.inl h1
+    · unfold envClasses at h2
+      rcases List.mem_append.1 h2 with h2 | h2
+      · split at h2
+        · rename_i c' hc; simp at h2; subst h2; exact Or.inr (Or.inl hc)
+        · cases h2
+      · split at h2
+        · rename_i c' hc; simp at h2; subst h2; exact Or.inr (Or.inr (Or.inl hc))
+        · cases h2
+  · -- the attached manifest's classes: those not already in the first list are csv.Error, SyntaxError, MemoryError
+    simp [manifestClasses, manifestOwnClasses, litClasses] at h3
+    rcases h3 with rfl | rfl | rfl | rfl | rfl | rfl | rfl | rfl | rfl <;> simp
+
+/-- version dispatch: only 1…6 have a loader (found by hash/equality, so `6.0` and `true` count as 6 and 1);
+    an unhashable version is a TypeError, anything else IndexNotSupported -/
+theorem sbt_version_dispatch :
+    Gen.c20SbtVersions = [1, 2, 3, 4, 5, 6] ∧
+    okOf (loaderOf (.int 6)) = some 6 ∧ okOf (loaderOf (.flt 6 1)) = some 6 ∧ okOf (loaderOf (.bool true)) = some 1 ∧
+    excOf (loaderOf (.int 7)) = some .IndexNotSupported ∧ excOf (loaderOf (.int 0)) = some .IndexNotSupported ∧
+    excOf (loaderOf (.str (s "6"))) = some .IndexNotSupported ∧ excOf (loaderOf .null) = some .IndexNotSupported ∧
+    excOf (loaderOf (.flt 13 2)) = some .IndexNotSupported ∧
+    excOf (loaderOf (.arr [.int 6])) = some .TypeError ∧ excOf (loaderOf (.obj [])) = some .TypeError := by
+  decide +kernel
+
+theorem sbt_loader_range {v : J} {n : Nat} (h : loaderOf v = .ok n) : n ∈ Gen.c20SbtVersions := by
+  unfold loaderOf at h
+  have key : ∀ i : Int, (if Gen.c20SbtVersions.contains i.toNat && i > 0 then (pure i.toNat : R Nat) else raise .IndexNotSupported) = .ok n →
+      n ∈ Gen.c20SbtVersions := by
+    intro i hi
+    split at hi
+    · rename_i hc
+      simp [pure, Except.pure] at hi
+      subst hi
+      simp at hc
+      exact hc.1
+    · simp [raise] at hi
+  split at h
+  · exact key _ h
+  · exact key _ h
+  · split at h
+    · exact key _ h
+    · simp [raise] at h
+  all_goals simp [raise] at h
+
+def leaf (n : String) : J := .obj [(s "filename", .str (s n)), (s "name", .str (s n)), (s "metadata", .str (s n))]
+
+/-- a v6 index document with branching factor `d`, one internal node and two leaves -/
+def sbtBase (d : J) : J :=
+  .obj [(s "d", d), (s "version", .int 6),
+        (s "storage", .obj [(s "backend", .str (s "FSStorage")), (s "args", .obj [(s "path", .str (s ".sbt.x"))])]),
+        (s "factory", .obj [(s "class", .str (s "GraphFactory")), (s "args", .arr [.int 1, .int 100000, .int 4])]),
+        (s "nodes", .obj [(s "0", .obj [(s "filename", .str (s "internal.0")), (s "name", .str (s "internal.0"))])]),
+        (s "signatures", .obj [(s "1", leaf "a"), (s "2", leaf "b")])]
+
+/-- a v6 index document with one leaf, stored at position `key` -/
+def oneLeaf (key : List Char) : J :=
+  .obj [(s "d", .int 2), (s "version", .int 6),
+        (s "storage", .obj [(s "backend", .str (s "FSStorage")), (s "args", .obj [(s "path", .str (s ".sbt.x"))])]),
+        (s "factory", .obj [(s "class", .str (s "GraphFactory")), (s "args", .arr [.int 1, .int 100000, .int 4])]),
+        (s "nodes", .obj []),
+        (s "signatures", .obj [(key, leaf "a")])]
+
+def sbtFile (doc : J) : SbtFile := ⟨.doc doc, none, .notFound, .fs .notFound, false⟩
+
+theorem sbt_classes_tight :
+    okOf (loadSbt litModel (sbtFile (sbtBase (.int 2)))).res = some ⟨6, some 2, 1, 2, 2, 0, none⟩ ∧
+    excOf (loadSbt litModel ⟨.jsonError, none, .notFound, .fs .notFound, false⟩).res = some .JSONDecodeError ∧
+    excOf (loadSbt litModel ⟨.recursion, none, .notFound, .fs .notFound, false⟩).res = some .RecursionError ∧
+    excOf (loadSbt litModel (sbtFile (J.del (s "version") (sbtBase (.int 2))))).res = some .KeyError ∧
+    excOf (loadSbt litModel (sbtFile (J.set (s "version") (.int 9) (sbtBase (.int 2))))).res = some .IndexNotSupported ∧
+    excOf (loadSbt litModel (sbtFile (J.set (s "version") (.arr []) (sbtBase (.int 2))))).res = some .TypeError ∧
+    excOf (loadSbt litModel (sbtFile (J.set (s "nodes") (.arr []) (sbtBase (.int 2))))).res = some .AttributeError ∧
+    excOf (loadSbt litModel (sbtFile (J.set (s "nodes") (.obj [(s "x", .null)]) (sbtBase (.int 2))))).res = some .ValueError ∧
+    excOf (loadSbt litModel (sbtFile (J.set (s "signatures") (.obj []) (sbtBase (.int 2))))).res = some .ValueError ∧
+    excOf (loadSbt litModel (sbtFile (.arr []))).res = some .IndexError ∧
+    excOf (loadSbt litModel (sbtFile (.arr [.null]))).res = some .ValueError ∧
+    excOf (loadSbt litModel (sbtFile (J.set (s "storage") (.obj [(s "backend", .str (s "RedisStorage")), (s "args", .obj [])]) (sbtBase (.int 2))))).res
+      = some .ModuleNotFoundError ∧
+    excOf (loadSbt litModel (sbtFile (J.set (s "manifest_path") (.str (s "m.csv")) (sbtBase (.int 2))))).res = some .FileNotFoundError ∧
+    excOf (loadSbt litModel { sbtFile (J.set (s "manifest_path") (.str []) (sbtBase (.int 2))) with manifest := .fs .isDir }).res
+      = some .IsADirectoryError ∧
+    excOf (loadSbt litModel { sbtFile (J.set (s "manifest_path") (.str (s "m")) (sbtBase (.int 2))) with manifest := .undecodable }).res
+      = some .UnicodeDecodeError ∧
+    -- the branching factor is taken as it comes: any JSON value loads
+    (okOf (loadSbt litModel (sbtFile (sbtBase (.str (s "abc"))))).res).map (·.d) = some none ∧
+    (okOf (loadSbt litModel (sbtFile (sbtBase (.int (-5))))).res).map (·.d) = some (some (-5)) := by
+  decide +kernel
+
+/-- **D26, as a theorem about the reader**: `d` is stored unchecked (`Gen.c20SbtChecksD = false`) and
+    `SBT.children` iterates `range(d)` (`Gen.c20SbtChildrenLinearInD`): for EVERY n the same small document with
+    `"d": n` loads, and every node visit of a later search costs n iterations.  The document's size grows with
+    the number of digits of n only: no bound c·|input| on the work of a search exists. -/
+theorem sbt_children_cost_unbounded (n : Nat) :
+    Gen.c20SbtChecksD = false ∧ Gen.c20SbtChildrenLinearInD = true ∧
+    ∃ info, (loadSbt litModel (sbtFile (sbtBase (.int n)))).res = .ok info ∧ childrenCost info = n := by
+  refine ⟨by decide, by decide, ⟨6, some n, 1, 2, 2, 0, none⟩, rfl, ?_⟩
+  simp [childrenCost]
+
+/-- the work `SBT.load` does beyond `range(max_node)` is linear in the document and the attached manifest -/
+theorem sbt_work_partial (lit : Cell → Lit) (f : SbtFile) (doc : J) :
+    (loadSbtDoc lit f doc).work ≤ 4 * doc.size + manifestPart f + sbtRange f doc :=
+  loadSbtDoc_work lit f doc
+
+/-
+FULL STATEMENT (not proved / false): `(loadSbtDoc lit f doc).work ≤ c * doc.size + manifestPart f` for some constant c.
+False for the code that exists (finding C20.1): `_load_v3 … _load_v6` build
+`{i for i in range(max_node) if i not in sbt_nodes and i not in sbt_leaves}` where `max_node` is the largest
+position KEY of the file, converted with `int()`; a key of k+1 digits costs 10^k iterations and a set of 10^k ints.
+-/
+
+/-- any one-leaf v6 document whose position key `int()` accepts as `i ≥ 0` loads, with `i` missing positions
+    enumerated (work `i + 2`) -/
+theorem oneLeaf_loads (lit : Cell → Lit) (key : List Char) (i : Nat) (h : pyIntStr key = .ok (Int.ofNat i)) :
+    (loadSbt lit (sbtFile (oneLeaf key))).res = .ok ⟨6, some 2, 0, 1, i, i, none⟩ ∧
+    (loadSbt lit (sbtFile (oneLeaf key))).work = i + 2 := by
+  have h5 : intTable (oneLeaf key) (s "signatures") = .ok ([(Int.ofNat i, leaf "a")], 1) := by
+    unfold intTable
+    have hk : getKey (oneLeaf key) (s "signatures") = .ok (.obj [(key, leaf "a")]) := rfl
+    rw [hk]
+    simp only [bind, Except.bind, items, pure, Except.pure, intKeyed, h]
+    rfl
+  have h4 : intTable (oneLeaf key) (s "nodes") = .ok ([], 0) := rfl
+  have hv : sbtVersion (oneLeaf key) = .ok (.int 6) := rfl
+  have hl : loaderOf (.int 6) = .ok 6 := rfl
+  have hs : storageFor ⟨.doc (oneLeaf key), none, .notFound, .fs .notFound, false⟩ 6 (oneLeaf key) = .ok () := rfl
+  have hf : factoryOf (oneLeaf key) = .ok () := rfl
+  have hd : getKey (oneLeaf key) (s "d") = .ok (.int 2) := rfl
+  have hm : manifestPath (oneLeaf key) = .ok none := rfl
+  have hleaf : leafLoad (leaf "a") = .ok () := rfl
+  have hflag : Gen.c20SbtMissingEnumeratesRange = true := by decide
+  have hrw : rangeWork (i : Int) = i := by simp [rangeWork, hflag]
+  have hrun : runLoader ⟨.doc (oneLeaf key), none, .notFound, .fs .notFound, false⟩ 6 (oneLeaf key) =
+      ⟨.ok ⟨6, .int 2, [], [Int.ofNat i], Int.ofNat i, i + 2⟩, i + 2⟩ := by
+    unfold runLoader
+    simp only [show ((6 : Nat) == 1) = false from rfl, show ((6 : Nat) == 2) = false from rfl,
+      show ((6 : Nat) == 3 || (6 : Nat) == 4) = false from rfl, h4]
+    unfold loadV56
+    simp only [show ((6 : Nat) == 5) = false from rfl]
+    simp [h5, hf, hd, loopAll, hleaf, hrw, pure, Except.pure]
+    omega
+  unfold loadSbt
+  simp only [sbtFile]
+  unfold loadSbtDoc
+  simp only [hv, hl, hs, hrun, hm]
+  have he : [(i : Int)].eraseDups = [(i : Int)] := rfl
+  simp [infoOf, dOf, missingCount, pure, Except.pure, he]
+
+/-- the position key "1" followed by k zeros -/
+def pow10Key (k : Nat) : List Char := '1' :: List.replicate k '0'
+
+theorem go_zeros (acc n k : Nat) : digitsU.go acc n (List.replicate k '0') = some (acc * 10 ^ k, n + k, []) := by
+  induction k generalizing acc n with
+  | zero => simp [digitsU.go]
+  | succ k ih =>
+    rw [List.replicate_succ]
+    unfold digitsU.go
+    have hd : digitVal '0' = some 0 := by decide
+    simp only [hd]
+    rw [ih]
+    have h1 : (acc * 10 + 0) * 10 ^ k = acc * 10 ^ (k + 1) := by
+      rw [Nat.add_zero, Nat.pow_succ, Nat.mul_assoc, Nat.mul_comm 10]
+    have h2 : n + 1 + k = n + (k + 1) := by omega
+    rw [h1, h2]
+
+theorem lstripNum_nonws {c : Char} {cs : List Char} (h : isWsNum c = false) : lstripNum (c :: cs) = c :: cs := by
+  simp [lstripNum, h]
+
+/-- `int("1" + "0"*k) = 10^k`, up to CPython's limit on the number of digits -/
+theorem pyIntStr_pow10 (k : Nat) (hk : k + 1 ≤ maxStrDigits) : pyIntStr (pow10Key k) = .ok (Int.ofNat (10 ^ k)) := by
+  have hascii : allAscii (pow10Key k) = true := by
+    simp [allAscii, pow10Key, isAscii, List.all_replicate]
+  have hstrip : stripNum (pow10Key k) = pow10Key k := by
+    unfold stripNum
+    have h1 : lstripNum (pow10Key k) = pow10Key k := lstripNum_nonws (by decide)
+    rw [h1]
+    cases k with
+    | zero => decide
+    | succ k =>
+      have : (pow10Key (k + 1)).reverse = '0' :: (List.replicate k '0' ++ ['1']) := by
+        simp [pow10Key, List.replicate_succ']
+      rw [this, lstripNum_nonws (by decide), ← this, List.reverse_reverse]
+  unfold pyIntStr
+  rw [hascii, hstrip]
+  have hs : signSplit (pow10Key k) = (false, pow10Key k) := by rfl
+  have hd : digitsU (pow10Key k) = some (10 ^ k, 1 + k, []) := by
+    unfold pow10Key digitsU
+    have : digitVal '1' = some 1 := by decide
+    simp only [this]
+    rw [go_zeros]; simp
+  simp only [hs, hd]
+  have : ¬ (1 + k > maxStrDigits) := by omega
+  simp [this, pure, Except.pure]
+
+/-- **C20.1 (new finding), as a theorem about the reader**: for every k below CPython's digit limit, the
+    one-leaf index document whose leaf position is written "1" followed by k zeros — a document of size
+    146 + k — is ACCEPTED by `SBT.load`, which enumerates 10^k positions to build `_missing_nodes`
+    (10^k entries).  The work is exponential in the size of the input: no polynomial bound exists,
+    let alone c·|input|. -/
+theorem sbt_missing_range_unbounded (lit : Cell → Lit) (k : Nat) (hk : k + 1 ≤ maxStrDigits) :
+    Gen.c20SbtMissingEnumeratesRange = true ∧
+    (oneLeaf (pow10Key k)).size = 146 + k ∧
+    (∃ info, (loadSbt lit (sbtFile (oneLeaf (pow10Key k)))).res = .ok info ∧ info.nMissing = 10 ^ k) ∧
+    10 ^ k ≤ (loadSbt lit (sbtFile (oneLeaf (pow10Key k)))).work := by
+  obtain ⟨hres, hwork⟩ := oneLeaf_loads lit (pow10Key k) (10 ^ k) (pyIntStr_pow10 k hk)
+  refine ⟨by decide, ?_, ⟨_, hres, rfl⟩, by omega⟩
+  simp [oneLeaf, pow10Key, J.size, sizeO, sizeL, leaf, s]
+  omega
+
+/-- a concrete instance, evaluated by the kernel: a document of size 161 whose load enumerates 10^15 positions -/
+theorem sbt_missing_range_instance :
+    (oneLeaf (s "1000000000000000")).size = 161 ∧
+    (okOf (loadSbt litModel (sbtFile (oneLeaf (s "1000000000000000")))).res).map (·.nMissing) = some (10 ^ 15) ∧
+    (loadSbt litModel (sbtFile (oneLeaf (s "1000000000000000")))).work = 10 ^ 15 + 2 := by
+  decide +kernel
+
+/-! ### the loader chain: `_load_database` -/
+
+open Sm.Chain
+
+/-- a loader's outcome lets the chain go on to the next loader -/
+def declines (p : Loader × Out) : Prop :=
+  outer p.1 p.2 = .none_ ∨ ∃ mro, outer p.1 p.2 = .raises mro ∧ isInstance mro caught = true
+
+/-- **the chain always ends in an index or an exception, and which one**:
+    * an index comes from the first loader that returns one, every earlier loader having declined;
+    * an exception attributed to loader `fn` is that loader's own (after its conversion to IndexNotLoaded, if any),
+      it is NOT an instance of a swallowed class, and every earlier loader declined;
+    * otherwise every loader declined and the chain raises its own ValueError. -/
+theorem chain_outcome (l : List (Loader × Out)) (n : Nat) :
+    (∃ pre p post, l = pre ++ p :: post ∧ (∀ q ∈ pre, declines q) ∧ outer p.1 p.2 = .idx ∧ (run l n).1 = .index p.1.fn) ∨
+    (∃ pre p post mro, l = pre ++ p :: post ∧ (∀ q ∈ pre, declines q) ∧ outer p.1 p.2 = .raises mro ∧
+        isInstance mro caught = false ∧ (run l n).1 = .raised mro (some p.1.fn)) ∨
+    ((∀ q ∈ l, declines q) ∧ (run l n).1 = .raised valueErrorMro none) := by
+  induction l generalizing n with
+  | nil => right; right; exact ⟨by simp, rfl⟩
+  | cons p rest ih =>
+    obtain ⟨ld, o⟩ := p
+    unfold run
+    cases ho : outer ld o with
+    | idx => left; exact ⟨[], (ld, o), rest, rfl, by simp, ho, rfl⟩
+    | none_ =>
+      have hd : declines (ld, o) := Or.inl ho
+      rcases ih (n + 1) with ⟨pre, p, post, hl, hpre, hp, hr⟩ | ⟨pre, p, post, mro, hl, hpre, hp, hc, hr⟩ | ⟨hall, hr⟩
+      · left; exact ⟨(ld, o) :: pre, p, post, by simp [hl], by intro q hq; rcases List.mem_cons.1 hq with rfl | hq; exact hd; exact hpre q hq, hp, hr⟩
+      · right; left; exact ⟨(ld, o) :: pre, p, post, mro, by simp [hl], by intro q hq; rcases List.mem_cons.1 hq with rfl | hq; exact hd; exact hpre q hq, hp, hc, hr⟩
+      · right; right; exact ⟨by intro q hq; rcases List.mem_cons.1 hq with rfl | hq; exact hd; exact hall q hq, hr⟩
+    | raises mro =>
+      simp only []
+      by_cases hc : isInstance mro caught = true
+      · have hd : declines (ld, o) := Or.inr ⟨mro, ho, hc⟩
+        simp only [hc, if_true]
+        rcases ih (n + 1) with ⟨pre, p, post, hl, hpre, hp, hr⟩ | ⟨pre, p, post, mro', hl, hpre, hp, hc', hr⟩ | ⟨hall, hr⟩
+        · left; exact ⟨(ld, o) :: pre, p, post, by simp [hl], by intro q hq; rcases List.mem_cons.1 hq with rfl | hq; exact hd; exact hpre q hq, hp, hr⟩
+        · right; left; exact ⟨(ld, o) :: pre, p, post, mro', by simp [hl], by intro q hq; rcases List.mem_cons.1 hq with rfl | hq; exact hd; exact hpre q hq, hp, hc', hr⟩
+        · right; right; exact ⟨by intro q hq; rcases List.mem_cons.1 hq with rfl | hq; exact hd; exact hall q hq, hr⟩
+      · have hc' : isInstance mro caught = false := by simpa using hc
+        right; left
+        exact ⟨[], (ld, o), rest, mro, rfl, by simp, ho, hc', by simp [hc']⟩
+
+/-- **work**: every loader is tried at most once -/
+theorem chain_calls (l : List (Loader × Out)) (n : Nat) : (run l n).2 ≤ n + l.length := by
+  induction l generalizing n with
+  | nil => simp [run]
+  | cons p rest ih =>
+    obtain ⟨ld, o⟩ := p
+    unfold run
+    split
+    · simp
+    · have := ih (n + 1); simp only [List.length_cons]; omega
+    · split
+      · have := ih (n + 1); simp only [List.length_cons]; omega
+      · simp
+
+/-- the loader table of the current source, in the order it is tried, and the classes the chain swallows -/
+theorem chain_table :
+    loaders.map (fun l => (l.priority, l.fn, l.converts)) =
+      [(10, "_load_stdin", []), (20, "_load_sqlite_db", []), (30, "_load_standalone_manifest", ["BadGzipFile"]),
+       (40, "_multiindex_load_from_path", []), (50, "_multiindex_load_from_pathlist", []),
+       (60, "_load_sbt", ["FileNotFoundError", "TypeError"]), (70, "_load_revindex", []),
+       (80, "_load_zipfile", ["FileNotFoundError"]), (1000, "_error_on_fastaq", [])] ∧
+    caught = ["ValueError", "IndexNotLoaded"] := by
+  decide +kernel
+
+def loaderNamed (fn : String) : Loader := (loaders.find? (fun l => l.fn == fn)).getD ⟨0, "", "", []⟩
+
+/-- run the chain of the current source on a vector of per-loader outcomes (listed in priority order) -/
+def runOn (outs : List Out) : Final := (run (loaders.zip outs) 0).1
+
+/-- **what leaks**: the chain swallows ValueError (with its subclasses: UnicodeDecodeError, JSONDecodeError …)
+    and IndexNotLoaded only.  Everything else a loader lets out reaches the caller unchanged: the SQLite
+    loader's `sqlite3.OperationalError` / `DatabaseError`, `IndexNotSupported` (a SourmashError but not
+    IndexNotLoaded), a native `Panic`, the SBT loader's KeyError / AttributeError, the LCA loader's
+    OverflowError / AssertionError, the manifest loader's SyntaxError / TypeError / MemoryError.
+    A TypeError or FileNotFoundError inside the SBT loader is converted and swallowed. -/
+theorem chain_leaks :
+    -- every loader declines: the chain's own ValueError
+    runOn [.none_, .none_, .raises ["UnicodeDecodeError", "UnicodeError", "ValueError", "Exception"], .raises valueErrorMro,
+           .raises valueErrorMro, .raises ["FileNotFoundError", "OSError", "Exception"], .raises valueErrorMro, .none_, .none_]
+      = .raised valueErrorMro none ∧
+    -- sqlite3.OperationalError from the second loader is not swallowed
+    runOn [.none_, .raises ["OperationalError", "DatabaseError", "Error", "Exception"]]
+      = .raised ["OperationalError", "DatabaseError", "Error", "Exception"] (some "_load_sqlite_db") ∧
+    -- IndexNotSupported from the SQLite or the SBT loader
+    runOn [.none_, .raises ["IndexNotSupported", "SourmashError", "Exception"]]
+      = .raised ["IndexNotSupported", "SourmashError", "Exception"] (some "_load_sqlite_db") ∧
+    -- SyntaxError / TypeError from the manifest loader
+    runOn [.none_, .none_, .raises ["SyntaxError", "Exception"]] = .raised ["SyntaxError", "Exception"] (some "_load_standalone_manifest") ∧
+    runOn [.none_, .none_, .raises ["TypeError", "Exception"]] = .raised ["TypeError", "Exception"] (some "_load_standalone_manifest") ∧
+    -- the same TypeError inside the SBT loader is converted to IndexNotLoaded and swallowed; KeyError is not
+    runOn [.none_, .none_, .raises valueErrorMro, .raises valueErrorMro, .raises valueErrorMro, .raises ["TypeError", "Exception"], .idx]
+      = .index "_load_revindex" ∧
+    runOn [.none_, .none_, .raises valueErrorMro, .raises valueErrorMro, .raises valueErrorMro, .raises ["KeyError", "LookupError", "Exception"]]
+      = .raised ["KeyError", "LookupError", "Exception"] (some "_load_sbt") ∧
+    -- a native panic surfacing in the zip loader
+    runOn [.none_, .none_, .raises valueErrorMro, .raises valueErrorMro, .raises valueErrorMro, .raises indexNotLoadedMro, .raises valueErrorMro,
+           .raises ["Panic", "SourmashError", "Exception"]]
+      = .raised ["Panic", "SourmashError", "Exception"] (some "_load_zipfile") ∧
+    -- the first index wins
+    runOn [.none_, .none_, .raises valueErrorMro, .idx, .idx] = .index "_multiindex_load_from_path" := by
+  decide +kernel
 
 end Sm.C20
